@@ -20,6 +20,71 @@ class AnalysisError(Exception):
     """The analysis itself cannot proceed (anchor vanished, floor missed): exit 2, never a VIOLATION."""
 
 
+def _mentions_version(test):
+    for n in ast.walk(test):
+        if isinstance(n, ast.Attribute) and n.attr in ("NumpyVersion", "__version__"):
+            return True
+    return False
+
+
+def static_module_cond(mod, test, env=None):
+    """Value of a module-level condition that is fixed for the installed NumPy: a NumpyVersion / __version__
+    comparison, or `NAME is (not) None` for a NAME whose live binding is known (env of a registration helper
+    first, then the module-level bindings collected so far).  None when not decidable."""
+    if isinstance(test, ast.UnaryOp) and isinstance(test.op, ast.Not):
+        v = static_module_cond(mod, test.operand, env)
+        return None if v is None else (not v)
+    if isinstance(test, ast.BoolOp):
+        vals = [static_module_cond(mod, v, env) for v in test.values]
+        if isinstance(test.op, ast.And):
+            return False if any(v is False for v in vals) else (True if all(v is True for v in vals) else None)
+        return True if any(v is True for v in vals) else (False if all(v is False for v in vals) else None)
+    if isinstance(test, ast.Compare) and len(test.ops) == 1:
+        l, op, r = test.left, test.ops[0], test.comparators[0]
+        if isinstance(op, (ast.Is, ast.IsNot)) and isinstance(r, ast.Constant) and r.value is None and isinstance(l, ast.Name):
+            val = None
+            if env is not None and l.id in env:
+                val = env[l.id]
+            else:
+                bl = mod.top.get(l.id)
+                if bl and bl[-1][0] == "assign":
+                    val = bl[-1][1]
+                elif bl:
+                    val = bl[-1]
+            if val is None:
+                return None
+            e = getattr(val, "expr", val)
+            if isinstance(e, ast.Constant):
+                is_none = e.value is None
+            elif isinstance(e, (ast.Attribute, ast.Call, ast.List, ast.Tuple, ast.Dict, ast.Lambda, tuple)):
+                is_none = False
+            elif isinstance(e, ast.Name):
+                return None
+            else:
+                return None
+            return is_none if isinstance(op, ast.Is) else (not is_none)
+        if _mentions_version(test) and isinstance(r, ast.Constant):
+            np = getattr(getattr(mod.repo, "env", None), "np", None)
+            if np is None:
+                return None
+            try:
+                lhs = np.lib.NumpyVersion(np.__version__) if isinstance(l, ast.Call) else np.__version__
+                rhs = r.value
+                if isinstance(op, ast.Lt):
+                    return bool(lhs < rhs)
+                if isinstance(op, ast.LtE):
+                    return bool(lhs <= rhs)
+                if isinstance(op, ast.Gt):
+                    return bool(lhs > rhs)
+                if isinstance(op, ast.GtE):
+                    return bool(lhs >= rhs)
+                if isinstance(op, ast.Eq):
+                    return bool(lhs == rhs)
+            except Exception:
+                return None
+    return None
+
+
 class Ref:
     kind = "?"
 
@@ -149,8 +214,14 @@ class Mod:
                 ):
                     self.wrap_sources.append(c.args[0].value)
             elif isinstance(st, ast.If):
-                self._collect(st.body)
-                self._collect(st.orelse)
+                v = static_module_cond(self, st.test)
+                if v is None or getattr(self.repo, "both_version_branches", False):
+                    self._collect(st.body)
+                    self._collect(st.orelse)
+                elif v:
+                    self._collect(st.body)
+                else:
+                    self._collect(st.orelse)
             elif isinstance(st, ast.Try):
                 self._collect(st.body)
                 for h in st.handlers:
